@@ -48,6 +48,17 @@ def plan(tier, seed):
                            "model(split_selfies tokens) == decoder"})
     for sh in E1.shard_prefixes(SMI_TOK, Ls, 2):
         tasks.append(("encoder-outputs/L%d" % Ls, ("enc", Ls, sh)))
+    from mc.props import c01
+    fam_names = ("nested-budgets", "branch-budget", "fragments", "rings-reaching-back-over-dot")
+    for fi, (fname, table, members) in enumerate(c01.families(tier)):
+        if fname in fam_names and table == "default":
+            name = "decoder-tokens/" + fname
+            scopes.append({"name": name, "members": len(members),
+                           "desc": "hand-shaped strings the encoder never writes: the reference model fed with split_selfies' "
+                                   "tokens must equal the decoder (the decoder consumes exactly these tokens, also across nested "
+                                   "branch budgets)"})
+            for k in range(0, len(members), 100):
+                tasks.append((name, ("fam", fi, k, k + 100, tier)))
     return {"scopes": scopes, "tasks": tasks, "bounds": {"L": L, "L_smiles_tokens": Ls}}
 
 
@@ -151,6 +162,30 @@ def run(task):
                     r.validated += 1
                     r.nontrivial.add(h64(tuple(sorted(exp))))
         r.sample({"scope": scope, "strings": [base[5], base[-1]]}, 1)
+    elif arg[0] == "fam":
+        from mc.props import c01
+        _, fi, lo, hi, tier = arg
+        fname, _t, members = c01.families(tier)[fi]
+        _SF.set_semantic_constraints("".join(list("default")))
+        table = _SF.get_semantic_constraints()
+        for label, x in members[lo:hi]:
+            if not misc.is_wellformed_single_dots(x) or x.endswith(".") or x.startswith("."):
+                continue        # outside C14's language (single dots between symbols)
+            r.states += 1
+            r.evaluations += 1
+            r.transitions += 1
+            case = {"kind": "string", "selfies": x}
+            toks = list(_SF.split_selfies(x))
+            if toks != misc.tokenize(x) or _SF.len_selfies(x) != len(toks):
+                r.violation("split:tokens", case, "tokens of %r" % (x[:200],))
+                continue
+            verdict, got = deccmp.compare(_SF, x, toks, table)
+            if verdict is not None:
+                r.violation("decoder-consumes-other-tokens:" + verdict[0], {"kind": "dec", "selfies": x}, verdict[1])
+                continue
+            r.validated += 1
+            r.nontrivial.add(h64(x))
+        r.sample({"scope": scope, "selfies": members[lo][1][:120]}, 1)
     else:
         _, L, sh = arg
         table = _SF.get_semantic_constraints()
@@ -196,6 +231,11 @@ def replay(case):
         got = _SF.get_alphabet_from_selfies(case["strings"])
         if got != exp:
             r.violation("alphabet:collection", case, "%r vs %r" % (got, exp))
+    elif case["kind"] == "dec":
+        x = case["selfies"]
+        verdict, got = deccmp.compare(_SF, x, list(_SF.split_selfies(x)), _SF.get_semantic_constraints())
+        if verdict is not None:
+            r.violation("decoder-consumes-other-tokens:" + verdict[0], case, verdict[1])
     else:
         x = _SF.encoder(case["smiles"])
         toks = list(_SF.split_selfies(x))
